@@ -892,7 +892,7 @@ def main(ctx):
         ctx.obligation("tie:Generated.C19.shapes = expectedShapes (parse-side Go text as transcribed)", "tie", True, "")
     lean_ok = ok
     if ok:
-        ctx.audit("GojaModel.C19.Props", expect_min=37)
+        ctx.audit("GojaModel.C19.Props", expect_min=43)
         if ctx.tier == "thorough":
             ctx.leanchecker("GojaModel.C19.Props")
     h = ctx.go_build()
@@ -915,7 +915,7 @@ def main(ctx):
     for s in NUM_FIXED:
         addP(units(s), "fixed-number"); addP(units("[" + s + "]"), "fixed-number"); addP(units("-" + s), "fixed-number")
     bases = [units(s) for s in BASE_FOR_EDITS]
-    n_gen = 1200 if quick else 10000
+    n_gen = 1000 if quick else 10000
     gen = []
     for _ in range(n_gen):
         t = units(gen_text(r))
@@ -923,7 +923,7 @@ def main(ctx):
     # exhaustive single edits of the fixed bases and of some short generated texts
     short = [t for t in gen if 4 <= len(t) <= 40]
     r.shuffle(short)
-    edit_bases = bases + short[:(8 if quick else 60)]
+    edit_bases = bases + short[:(5 if quick else 60)]
     n_ex = 0
     for b in edit_bases:
         for e in all_single_edits(b):
@@ -991,12 +991,14 @@ def main(ctx):
     for s in J_FIXED: J.append("JF " + hx(s))
     for s in PRIM_TOJSON: J.append("JFM " + hx(s))
     J += shared_family()
-    n_j = 1200 if quick else 15000
+    n_j = 900 if quick else 15000
     for _ in range(n_j):
         J.append(JGen(r).case())
     V = [l for l in corpus if l.startswith("V ") or l.startswith("VF ")]
     for t in V_TEXTS[:8]:
         for rv in V_REVIVERS: V.append("V " + hx("function mk(){ return [%s, %s]; }" % (js_str(t), rv)))
+    # JSON.parse with a reviver as the very first operation of a fresh runtime (lazy JSON object / prototypes)
+    for rv in V_REVIVERS[8:12]: V.append("VF " + hx("function mk(){ return [%s, %s]; }" % (js_str(V_TEXTS[8]), rv)))
     for _ in range(300 if quick else 6000): V.append(gen_v(r))
     # replacer function / toJSON hook catalogue of the Lean model (serH / catHooks): text + call log
     SR = [l for l in corpus if l.startswith("SR ")]
